@@ -25,6 +25,8 @@ type c31combo struct {
 	tool                        string
 	auth, pass, dtls, insecure  bool // auth: --auth for the gateway, --user for the clients
 	env                         bool
+	// explicitFalse: a switch that is off is spelled out (--dtls=false, DTLS_ENABLED=false) instead of left out
+	explicitFalse bool
 }
 
 func (c c31combo) String() string {
@@ -35,6 +37,9 @@ func (c c31combo) String() string {
 	how := "flags"
 	if c.env {
 		how = "env"
+	}
+	if c.explicitFalse {
+		how += ", switches that are off given as false"
 	}
 	return fmt.Sprintf("%s %s=%t password=%t dtls=%t insecure=%t (%s)", c.tool, a, c.auth, c.pass, c.dtls, c.insecure, how)
 }
@@ -59,12 +64,28 @@ func (c c31combo) args() (args, env []string) {
 	if c.pass && c.tool != "bisquitt" {
 		flag("password", "PASSWORD", "p1")
 	}
+	off := func(name, envName string) {
+		if c.explicitFalse {
+			if c.env {
+				env = append(env, envName+"=false")
+			} else {
+				args = append(args, "--"+name+"=false")
+			}
+		}
+	}
 	if c.dtls {
 		flag("dtls", "DTLS_ENABLED", "true")
 		flag("self-signed", "SELF_SIGNED", "true")
+	} else {
+		off("dtls", "DTLS_ENABLED")
 	}
 	if c.insecure {
 		flag("insecure", "INSECURE", "true")
+	} else {
+		off("insecure", "INSECURE")
+	}
+	if !c.auth && c.tool == "bisquitt" {
+		off("auth", "AUTH")
 	}
 	return
 }
@@ -198,6 +219,10 @@ func TestC31(t *testing.T) {
 				continue // the gateway has no --password of its own
 			}
 			combos = append(combos, c)
+			if !c.pass && !(c.dtls && c.insecure) {
+				c.explicitFalse = true
+				combos = append(combos, c)
+			}
 		}
 	}
 	obs := make([]string, len(combos))
@@ -257,7 +282,7 @@ func TestC31(t *testing.T) {
 	rep.Coverage["inconclusive"] = incon
 	rep.Coverage["exhaustive"] = incon == 0
 	rep.Coverage["samples"] = samples
-	rep.Coverage["rule"] = "the three binaries built from the current tree, once per combination of --auth (bisquitt) resp. --user/--password (bisquitt-pub, bisquitt-sub), --dtls with --self-signed, --insecure, each spelled as flags and as environment variables (16 + 32 + 32 runs) against loopback peers: the tool must exit non-zero without sending a datagram / binding its UDP socket exactly when authentication is requested without DTLS and without --insecure; otherwise it must proceed: gateway socket bound; clients: a DTLS handshake record first (DTLS) or plaintext CONNECT immediately followed by AUTH with the credentials (user) or no AUTH at all up to the first REGISTER/PUBLISH/SUBSCRIBE (no user). distinct_nontrivial = distinct (tool, observation class) pairs"
+	rep.Coverage["rule"] = "the three binaries built from the current tree, once per combination of --auth (bisquitt) resp. --user/--password (bisquitt-pub, bisquitt-sub), --dtls with --self-signed, --insecure, each spelled as flags and as environment variables, switches that are off both left out and given explicitly as false (--dtls=false, DTLS_ENABLED=false; 116 runs) against loopback peers: the tool must exit non-zero without sending a datagram / binding its UDP socket exactly when authentication is requested without DTLS and without --insecure; otherwise it must proceed: gateway socket bound; clients: a DTLS handshake record first (DTLS) or plaintext CONNECT immediately followed by AUTH with the credentials (user) or no AUTH at all up to the first REGISTER/PUBLISH/SUBSCRIBE (no user). distinct_nontrivial = distinct (tool, observation class) pairs"
 	rep.Assumptions = []string{"no timing is judged; the 10 s harness deadline makes a run inconclusive", "DTLS runs stop at the first handshake record / the bound socket"}
 	rep.Finish()
 }
